@@ -75,7 +75,7 @@ def _replay_chunk(arg: tuple[dict[str, Any], list[list[dict]], int]) -> dict:
 
 def run_families(families: list[dict[str, Any]], seed: int,
                  max_replay: int | None = None, do_spec: bool = True,
-                 prefer: Any = None) -> dict[str, Any]:
+                 prefer: Any = None, nseeds: int = 1) -> dict[str, Any]:
     """Returns aggregate: spec results, mismatching behaviours, statistics."""
     with ThreadPoolExecutor(max_workers=6) as ex:
         gens = list(ex.map(_tlc_family,
@@ -100,10 +100,11 @@ def run_families(families: list[dict[str, Any]], seed: int,
             hs = [h for h in hs if not h[-1]['x'].get('raises')]
         for j, rc in enumerate(rcfgs):
             sub = hs if len(rcfgs) == 1 else hs[j::len(rcfgs)]
-            total_h += len(sub)
+            total_h += len(sub) * nseeds
             n = max(1, len(sub) // 24)
             for i in range(0, len(sub), n):
-                jobs.append((rc, sub[i:i + n], seed))
+                for sj in range(nseeds):   # several model / data seeds
+                    jobs.append((rc, sub[i:i + n], seed + 1000 * sj))
     outs = pmap(_replay_chunk, jobs)
     bad = []
     stats: dict[str, float] = {}
